@@ -104,6 +104,8 @@ def cmd_search(a):
     n = 0
     found = None
     spec_errors = []
+    known = json.loads(a.known) if a.known else []
+    known_hits = 0
     for ops in drv.histories(a.seed, a.budget, **kw):
         n += 1
         viol, fails, err = run_one(drv, a.prop, ops, kw)
@@ -114,13 +116,28 @@ def cmd_search(a):
         if err and len(spec_errors) < 3:
             spec_errors.append(dict(history=ops, driver_error=err))
         if viol or rel:
+            if known and _all_known(viol, rel, known):
+                known_hits += 1
+                continue
             found = dict(history=ops, oracle=viol, contract_failures=rel, driver_error=err)
             break
         if time.time() - t0 > a.time_limit:
             break
-    out = dict(prop=a.prop, histories=n, found=found, evals=dict(monitor.EVALS), wall_s=round(time.time() - t0, 2),
+    out = dict(prop=a.prop, histories=n, found=found, known_finding_histories=known_hits, evals=dict(monitor.EVALS), wall_s=round(time.time() - t0, 2),
                spec_errors=spec_errors)
     print(json.dumps(out, default=str))
+
+
+def _all_known(viol, rel, known):
+    """Every reported failure of this history is one of the listed known findings (token lists matched against
+    the failure text); contract failures are never 'known' this way."""
+    if rel:
+        return False
+    for v in viol:
+        txt = json.dumps(v, default=str)
+        if not any(all(tok in txt for tok in toks) for toks in known):
+            return False
+    return True
 
 
 def cmd_replay(a):
@@ -158,6 +175,7 @@ def main():
     s.add_argument('--seed', type=int, default=0)
     s.add_argument('--budget', type=int, default=100)
     s.add_argument('--time-limit', type=float, default=60)
+    s.add_argument('--known', default='')
     r = sub.add_parser('replay')
     r.add_argument('--file', required=True)
     a = p.parse_args()
